@@ -948,7 +948,7 @@ impl Prop for C02 {
         let (h, args) = request.as_call()?;
         if std::env::var("C02_DEBUG").is_ok() {
             let line = request.to_string();
-            eprintln!("eval {} bytes: {}", line.len(), &line[line.len().saturating_sub(300)..]);
+            eprintln!("eval {}", line);
         }
         match h {
             "batch-exec" => eval_batch_exec(args),
